@@ -885,6 +885,9 @@ func (s *Service) ProcessRequest(ctx *core.Context, m map[string]interface{}, ou
 		}
 
 		id, _, err := GetStringParam(m, "id", false)
+		if err != nil {
+			return nil, err
+		}
 
 		// ToDo: Not this.
 		js, err := json.Marshal(fact)
@@ -1105,6 +1108,9 @@ func (s *Service) ProcessRequest(ctx *core.Context, m map[string]interface{}, ou
 		}
 
 		id, _, err := GetStringParam(m, "id", false)
+		if err != nil {
+			return nil, err
+		}
 
 		// ToDo: Not this.
 		js, err := json.Marshal(rule)
